@@ -18,6 +18,8 @@ func init() {
 		SetProcs(c.Procs)
 		st := memstore.New(c.Series)
 		eng := NewEngine(c.Lookback, c.Opt, true)
+		shared := st.Session()
+		shared.Shuffle = c.Shuffle
 		type held struct {
 			at     int
 			q      promql.Query
@@ -42,8 +44,9 @@ func init() {
 		for i, a := range c.Hist {
 			switch a.Op {
 			case "query", "cancelquery":
-				sess := st.Session()
-				sess.Shuffle = c.Shuffle
+				// the long-lived engine is always given the same queryable, like an embedding
+				// application that passes its one storage to every query
+				sess := shared
 				q, err := Create(eng, sess, nil, a.Query, a.Start, a.End, a.Step)
 				if err != nil {
 					// a fresh engine must reject it as well
